@@ -124,7 +124,7 @@ def ms_vars(ms):
 def py_pnames(n):
     k = n['k']
     if k in ('table', 'point', 'func', 'const'):
-        s = evars(n['dur'])
+        s = evars(n['dur']) | (evars(n['t0']) if n.get('t0') else set())
         for r in n['reads']:
             s |= evars(r)
         return s | cs_vars(n['cs']) | ms_vars(n['ms'])
@@ -477,6 +477,9 @@ class Gen:
             k = 'amc'
         if k == 'amc':
             subs = [self.atomic_sub(avail, envs, chs[0]), self.atomic_sub(avail, envs, chs[1])]
+            for q in subs:
+                if q['k'] == 'map' and not q['cs'] and q['m'] and r.random() < 0.5:
+                    q['tup'] = True
             n = {'k': 'amc', 'subs': subs, 'cs': self.constraints(names, envs), 'ms': self.windows(names)}
         elif k == 'aat':
             n = {'k': 'aat', 'lhs': self.atomic_sub(avail, envs, chs[0], 1), 'rhs': self.atomic_sub(avail, envs, chs[-1], 1),
@@ -491,6 +494,15 @@ class Gen:
                  'ow': [[chs[-1], self.expr(names)]] + ([[chs[0], self.expr(names)]] if len(chs) == 2 and r.random() < 0.2 else [])}
         elif k == 'seq':
             subs = [self.tree(depth + 1, avail, envs, chs) for _ in range(r.choice([1, 2, 2, 3]))]
+            if r.random() < 0.12:
+                # the very same object twice among the direct children (aliasing; the model sees two copies)
+                j = r.randrange(len(subs))
+                self.fresh += 1
+                subs[j]['oid'] = 'o%d' % self.fresh
+                subs.insert(r.randrange(len(subs) + 1), copy.deepcopy(subs[j]))
+            for q in subs:
+                if q['k'] == 'map' and not q['cs'] and q['m'] and r.random() < 0.5:
+                    q['tup'] = True     # given to the SequencePT as a (template, mapping) tuple
             n = {'k': 'seq', 'subs': subs, 'cs': self.constraints(names, envs), 'ms': self.windows(names)}
         elif k == 'rep':
             count = self.int_expr(names, envs, -1, 3)
@@ -550,19 +562,39 @@ class Gen:
         return n
 
 
+_FS_CACHE = {}
+_REL_CACHE = {}
+
+
+def _rel_symbols(c):
+    """free symbols of the constraint as sympy sees it; None if it is not a relation"""
+    import sympy
+    key = cstr(c)
+    if key not in _REL_CACHE:
+        if c['op'] == '==':
+            rel = sympy.Eq(sympy.sympify(estr(c['l'])), sympy.sympify(estr(c['r'])))
+        else:
+            rel = sympy.sympify(key)
+        _REL_CACHE[key] = ({str(x) for x in rel.free_symbols}
+                           if isinstance(rel, sympy.core.relational.Relational) else None)
+    return _REL_CACHE[key]
+
+
 def sympy_ok(tree):
     """filter: sympy must see exactly the syntactic variables (no cancellation / auto-evaluation)"""
     import sympy
 
     def fs(s):
-        return {str(x) for x in sympy.sympify(s).free_symbols}
+        if s not in _FS_CACHE:
+            _FS_CACHE[s] = frozenset(str(x) for x in sympy.sympify(s).free_symbols)
+        return _FS_CACHE[s]
     for n in nodes(tree):
         exprs = list(n.get('reads', [])) + list(n.get('sa', []))
         if n['k'] == 'par':
             exprs += [e for _, e in par_ow(n)]
         exprs += [e for _, e in n.get('sc', [])]
-        for key in ('dur', 'count', 'a', 'b', 'st'):
-            if key in n:
+        for key in ('dur', 'count', 'a', 'b', 'st', 't0'):
+            if n.get(key):
                 exprs.append(n[key])
         for b, l in n.get('ms', []):
             exprs += [b, l]
@@ -571,13 +603,7 @@ def sympy_ok(tree):
             if fs(estr(e)) != evars(e):
                 return False
         for c in n.get('cs', []):
-            if c['op'] == '==':
-                rel = sympy.Eq(sympy.sympify(estr(c['l'])), sympy.sympify(estr(c['r'])))
-            else:
-                rel = sympy.sympify(cstr(c))
-            if not isinstance(rel, sympy.core.relational.Relational):
-                return False
-            if {str(x) for x in rel.free_symbols} != evars(c['l']) | evars(c['r']):
+            if _rel_symbols(c) != evars(c['l']) | evars(c['r']):
                 return False
         if n['k'] == 'map' and n['inner']['k'] == 'map' and not n['inner']['cs']:
             # will be merged: the composed expressions must not lose variables
@@ -669,6 +695,46 @@ def mk_case(tree, ref, family, rng, drop=(), tag='', zeros=(), rmn=None):
     if family == 'zero':
         c['zeros'] = sorted(zeros)
         c['rmn'] = rmn
+    if rng.random() < 0.3:
+        # how the values are handed over: numpy scalars, strings (evaluated by create_program), floats, a ready-made
+        # DictScope.  Only numpy scalars next to a division: a Python 0 / 0.0 divisor (float, string, or an int that
+        # reaches the template uncast inside a Scope) raises ZeroDivisionError, numpy zeros (ints in a dict are cast
+        # to int64) give inf -- what a zero divisor does is not a matter of parameters
+        div = any(n['k'] == 'ari' and n['op'] == '/' for n in nodes(tree))
+        c['vt'] = rng.choice(['np'] if div else ['np', 'scope', 'str', 'float'])
+        if rng.random() < 0.5:
+            c['vt2'] = 'int'
+    return c
+
+
+def mk_history(tree, ref, rng, drop=()):
+    """random history on one template object: the reference assignment, then assignments that differ from their
+    predecessor only in values with the same Python hash (-1 <-> -2, as int / float / numpy scalar), then the
+    reference again; sometimes a declared name is missing in one step (a failed call in between)"""
+    tog = {F(-1): F(-2), F(-2): F(-1)}
+    names = sorted(ref)
+    cand = [x for x in names if ref[x] in tog]
+    # a Python float 0.0 as divisor of an ArithmeticPT raises ZeroDivisionError where int / numpy zeros give inf: not
+    # a matter of parameters (notes: outside C03), so no float values next to a division
+    div = any(n['k'] == 'ari' and n['op'] == '/' for n in nodes(tree))
+    vts = ['int', 'np'] if div else ['int', 'float', 'np']
+    vt = rng.choice(['int'] + vts)
+    steps = [{'set': {}, 'vt': vt}]
+    if cand and rng.random() < 0.8:
+        sub = rng.sample(cand, rng.randint(1, len(cand)))
+        steps.append({'set': {x: str(tog[ref[x]]) for x in sub}, 'vt': vt})
+    else:
+        x = rng.choice(names)
+        a, b = rng.choice([(-1, -2), (-2, -1)])
+        steps.append({'set': {x: str(a)}, 'vt': vt})
+        steps.append({'set': {x: str(b)}, 'vt': vt})
+        if rng.random() < 0.5:
+            steps.append({'set': {x: str(a)}, 'vt': rng.choice(vts)})
+    if rng.random() < 0.3:
+        steps.insert(rng.randrange(1, len(steps) + 1), {'set': dict(steps[-1]['set']), 'del': [rng.choice(names)], 'vt': vt})
+    steps.append({'set': {}, 'vt': rng.choice(['int', vt])})
+    c = {'kind': 'history', 'tree': strip_ids(tree), 'ref': {k: str(v) for k, v in sorted(ref.items())},
+         'drop': sorted(drop), 'rm': 0, 'extra': {}, 'tag': 'collide', 'hist': steps}
     return c
 
 
@@ -902,7 +968,7 @@ def d_context(cname, m, tkind):
     keep_y = [_const(V(y), 'A')] if y in mm else []        # the swap also maps y: keep y needed below the mapping
     if cname == 'amc':
         t = d_target(tkind, x, 'A')
-        M = _tagged({'k': 'map', 'inner': t, 'm': mm, 'cs': []}, 'M')
+        M = _tagged({'k': 'map', 'inner': t, 'm': mm, 'cs': [], 'tup': tkind in ('point', 'mapz')}, 'M')
         if keep_y:
             M['inner'] = {'k': 'aat', 'lhs': t, 'rhs': keep_y[0], 'op': '+', 'ms': []}
         return {'k': 'amc', 'subs': [M, _const(C(1), 'B')], 'cs': [], 'ms': []}, x
@@ -911,7 +977,8 @@ def d_context(cname, m, tkind):
     if cname == 'top':
         return _tagged({'k': 'map', 'inner': inner, 'm': mm, 'cs': []}, 'M'), x
     if cname == 'seq':
-        M = _tagged({'k': 'map', 'inner': {'k': 'seq', 'subs': [_const(C(1)), inner], 'cs': [], 'ms': []}, 'm': mm, 'cs': []}, 'M')
+        M = _tagged({'k': 'map', 'inner': {'k': 'seq', 'subs': [_const(C(1)), inner], 'cs': [], 'ms': []}, 'm': mm, 'cs': [],
+                     'tup': tkind in ('table', 'func', 'rep', 'map0')}, 'M')
         return {'k': 'seq', 'subs': [M, _const(V(x))], 'cs': [], 'ms': []}, x
     if cname == 'rep':
         M = _tagged({'k': 'map', 'inner': inner, 'm': mm, 'cs': []}, 'M')
@@ -1398,7 +1465,7 @@ def directed_alias_cases(full):
                     c = {'op': '<', 'l': V('q1'), 'r': C(hi + 1 if accept else hi)}
                 find_tag(t, 'T')['cs'] = [c]
                 mk = lambda v: {'k': 'map', 'inner': copy.deepcopy(t), 'm': {'q1': ['-', V('p0'), C(1 - v)]}, 'cs': []}
-                tree = _seq(mk(first), mk(second))
+                tree = _seq(mk(first), dict(mk(second), tup=True))
                 if sympy_ok(strip_tags(tree)) and constructible(strip_tags(tree)):
                     cases.append(d_case(tree, ref, 'D7:two_scopes:%s:%d,%d:%s' % (tk, first, second,
                                                                                  'accept' if accept else 'reject')))
@@ -1412,15 +1479,76 @@ def directed_alias_cases(full):
     return cases
 
 
+def directed_atom_cases():
+    """D8 (from the coverage audit): atoms of duration exactly 0 (PointPT / TablePT / ConstantPT return no waveform,
+    constraints are still validated), a parametrised time of the first entry (a further needed read), a table whose
+    second channel ends earlier; alone (no program at all), next to a playing sibling, channel dropped"""
+    cases = []
+    ref = {'p0': F(1), 'p1': F(2), 'p3': F(1)}
+    zero = ['-', V('p1'), C(2)]
+    def atom(kind, dur, t0=None, short=False):
+        if kind == 'table2':
+            n = {'k': 'table', 'ch': ['A', 'B'], 'reads': [V('p0'), C(1), C(0), V('p0')], 'dur': dur, 'cs': [], 'ms': []}
+        elif kind == 'table':
+            n = {'k': 'table', 'ch': ['A'], 'reads': [V('p0'), C(1)], 'dur': dur, 'cs': [], 'ms': [[C(0), C(1)]]}
+        elif kind == 'point':
+            n = {'k': 'point', 'ch': ['A'], 'reads': [V('p0'), C(1)], 'dur': dur, 'cs': [], 'ms': []}
+        elif kind == 'point2':
+            n = {'k': 'point', 'ch': ['A', 'B'], 'reads': [V('p0'), C(1)], 'dur': dur, 'cs': [], 'ms': [[C(0), C(1)]]}
+        elif kind == 'func':
+            n = {'k': 'func', 'ch': ['A'], 'reads': [V('p0')], 'dur': dur, 'cs': [], 'ms': []}
+        else:
+            return _const(V('p0'), 'A', dur)
+        if t0 is not None:
+            n['t0'] = t0
+        if short:
+            n['short'] = True
+        return n
+    for kind in ('table', 'table2', 'point', 'point2', 'func', 'const'):
+        two = kind in ('table2', 'point2')
+        for cname, c in (('true', {'op': '<', 'l': V('p0'), 'r': C(3)}), ('false', {'op': '>', 'l': V('p0'), 'r': C(3)}),
+                         ('none', None)):
+            a = atom(kind, zero)
+            if c is not None:
+                if kind == 'const':
+                    continue
+                a['cs'] = [c]
+            sib = (lambda: atom('table2', C(2))) if two else (lambda: _const(C(1)))
+            for pos, tree in (('alone', a), ('seq', _seq(sib(), copy.deepcopy(a))), ('rep', _rep(copy.deepcopy(a), V('p1'))),
+                              ('map', {'k': 'map', 'inner': copy.deepcopy(a), 'm': {'p1': ['+', V('p1'), C(0)]}, 'cs': []})):
+                tree = copy.deepcopy(tree)
+                if pos == 'map':
+                    tree['m'] = {'p1': V('p3')}       # the duration is 1 - 2 < 0 below the mapping
+                    if kind != 'const':
+                        continue
+                cases.append(d_case(tree, ref, 'D8:zero:%s:%s:%s' % (kind, cname, pos)))
+            cases.append(d_case(a, ref, 'D8:zero:%s:%s:removed' % (kind, cname), kind='removed', rm=1))
+            cases.append(d_case(a, ref, 'D8:zero:%s:%s:dropA' % (kind, cname), drop=['A']))
+        if kind in ('table', 'table2', 'point', 'point2'):
+            for short in ((False, True) if kind == 'table2' else (False,)):
+                a = atom(kind, C(2), t0=V('p3'), short=short)
+                a['cs'] = [{'op': '<=', 'l': V('p3'), 'r': C(1)}]
+                tag = 'D8:t0:%s%s' % (kind, ':short' if short else '')
+                cases.append(d_case(a, ref, tag))
+                cases.append(d_case(a, dict(ref, p3=F(0)), tag + ':t0=0'))
+                cases.append(d_case(a, dict(ref, p3=F(2)), tag + ':violated'))
+                for rm in range(2):
+                    cases.append(d_case(a, ref, tag + ':removed%d' % rm, kind='removed', rm=rm))
+                if two:
+                    cases.append(d_case(a, ref, tag + ':dropA', drop=['A']))
+                    cases.append(d_case(a, ref, tag + ':dropAB:removed', drop=['A', 'B'], kind='removed', rm=1))
+    return cases
+
+
 def directed_cases(tier):
     full = tier == 'thorough'
     return (directed_mapping_cases(full) + directed_loop_cases() + directed_extra_cases()
             + directed_channel_cases() + directed_frame_cases(full) + directed_history_cases(full)
-            + directed_hash_loop_cases(full) + directed_alias_cases(full))
+            + directed_hash_loop_cases(full) + directed_alias_cases(full) + directed_atom_cases())
 
 
 def gen_cases(rng, tier, ctx, every_constraint=False):
-    ntrees = {'quick': 150, 'thorough': 1200}[tier]
+    ntrees = {'quick': 130, 'thorough': 1200}[tier]
     cases = enum_small() if tier == 'thorough' else []
     if not every_constraint:
         cases += directed_cases(tier)
@@ -1447,6 +1575,8 @@ def gen_cases(rng, tier, ctx, every_constraint=False):
                                  drop=rng.choice([['A'], ['B'], ['A', 'B'], ['A', 'B']]), tag='drop'))
         if any(n['k'] in ('aat', 'const', 'ari', 'par', 'amc') for n in nodes(tree)) and rng.random() < 0.5:
             cases.append(mk_case(tree, ref, 'exact', rng, drop=rng.choice([['A'], ['B']]), tag='drop'))
+        if rng.random() < 0.4:
+            cases.append(mk_history(tree, ref, rng, drop=rng.choice([[], [], [], ['A'], ['B']])))
         zc = zero_candidates(tree)
         if zc:
             x, y = rng.choice(zc)
@@ -1487,16 +1617,29 @@ def _build_pt(n, tsw, memo):
     from qupulse.pulses.time_reversal_pulse_template import TimeReversalPulseTemplate
     k = n['k']
     build_pt_ = lambda q: build_pt(q, tsw, memo)
-    cs = [cstr(c) for c in n.get('cs', [])]
-    ms = [('m', estr(b), estr(l)) for b, l in n.get('ms', [])]
+    cs = [cstr(c) for c in n.get('cs', [])] or None
+    ms = [('m', estr(b), estr(l)) for b, l in n.get('ms', [])] or None
+
+    def sub(q):
+        """a child of a SequencePT / AtomicMultiChannelPT: a constraint-free MappingPT flagged 'tup' is given as the
+        tuple (template, parameter mapping[, channel mapping][, measurement mapping]) (MappingPT.from_tuple)"""
+        if q['k'] == 'map' and q.get('tup') and not q['cs'] and q['m'] and not q.get('tsw') and q.get('oid') is None:
+            tup = (build_pt_(q['inner']), {key: estr(e) for key, e in q['m'].items()})
+            for extra in ('ren', 'mren'):
+                if q.get(extra):
+                    tup += (dict(q[extra]),)
+            return tup
+        return build_pt_(q)
+    t0 = estr(n['t0']) if n.get('t0') else 0         # time of the first entry (table: of the first channel)
     if k == 'table':
         d = estr(n['dur'])
         entries = {}
         for j, ch in enumerate(n['ch']):
-            entries[ch] = [(0, estr(n['reads'][2 * j])), (d, estr(n['reads'][2 * j + 1]))]
+            entries[ch] = [(t0 if j == 0 else 0, estr(n['reads'][2 * j])),
+                           (d if (j == 0 or not n.get('short')) else 1, estr(n['reads'][2 * j + 1]))]
         return TablePT(entries, parameter_constraints=cs, measurements=ms, consistency_check=False)
     if k == 'point':
-        return PointPT([(0, estr(n['reads'][0])), (estr(n['dur']), estr(n['reads'][1]))], channel_names=tuple(n['ch']),
+        return PointPT([(t0, estr(n['reads'][0])), (estr(n['dur']), estr(n['reads'][1]))], channel_names=tuple(n['ch']),
                        parameter_constraints=cs, measurements=ms)
     if k == 'func':
         return FunctionPT('%s*t' % estr(n['reads'][0]), estr(n['dur']), channel=n['ch'][0],
@@ -1504,7 +1647,7 @@ def _build_pt(n, tsw, memo):
     if k == 'const':
         return ConstantPT(estr(n['dur']), {ch: estr(e) for ch, e in zip(n['ch'], n['reads'])}, measurements=ms)
     if k == 'amc':
-        return AtomicMultiChannelPT(*[build_pt_(q) for q in n['subs']], parameter_constraints=cs, measurements=ms)
+        return AtomicMultiChannelPT(*[sub(q) for q in n['subs']], parameter_constraints=cs, measurements=ms)
     if k == 'par':
         return ParallelChannelPT(build_pt_(n['inner']), {c: estr(e) for c, e in par_ow(n)})
     if k == 'ari':
@@ -1518,15 +1661,18 @@ def _build_pt(n, tsw, memo):
     if k == 'rev':
         return TimeReversalPulseTemplate(build_pt_(n['inner']))
     if k == 'seq':
-        return SequencePT(*[build_pt_(q) for q in n['subs']], parameter_constraints=cs, measurements=ms)
+        return SequencePT(*[sub(q) for q in n['subs']], parameter_constraints=cs, measurements=ms)
     if k == 'rep':
         return RepetitionPT(build_pt_(n['body']), estr(n['count']), parameter_constraints=cs, measurements=ms)
     if k == 'for':
         return ForLoopPT(build_pt_(n['body']), n['idx'], (estr(n['a']), estr(n['b']), estr(n['st'])),
                          parameter_constraints=cs, measurements=ms)
     if k == 'map':
-        return MappingPT(build_pt_(n['inner']), parameter_mapping={key: estr(e) for key, e in n['m'].items()},
-                         parameter_constraints=cs, allow_partial_parameter_mapping=True,
+        inner = build_pt_(n['inner'])
+        # no mapping at all = identity; a complete mapping needs no allow_partial_parameter_mapping
+        kw = {} if set(n['m']) >= set(inner.parameter_names) else {'allow_partial_parameter_mapping': True}
+        return MappingPT(inner, parameter_mapping={key: estr(e) for key, e in n['m'].items()} if n['m'] else None,
+                         parameter_constraints=cs, **kw,
                          channel_mapping=dict(n['ren']) if n.get('ren') else None,
                          measurement_mapping=dict(n['mren']) if n.get('mren') else None)
     raise ValueError(k)
@@ -1538,6 +1684,8 @@ def py_value(q, vt='int'):
     q = F(q)
     if vt == 'float':
         return float(q)
+    if vt == 'str':          # create_program evaluates non-numbers with Expression(value).evaluate_numeric()
+        return str(q)
     if vt == 'np':
         import numpy as np
         if q.denominator == 1:
@@ -1580,9 +1728,16 @@ def _create(pt, values, drop, tsw=(), keep=None, vt='int'):
         kw['channel_mapping'] = {ch: None for ch in pt.defined_channels if ch in drop}
     if tsw:
         kw['to_single_waveform'] = set(tsw)
+    if vt == 'scope':        # the assignment handed over as a ready-made Scope object
+        from qupulse.parameter_scope import DictScope
+        params = DictScope.from_kwargs(**{k: py_value(v) for k, v in values.items()})
+    elif not values and vt == 'int':
+        params = None        # a template without parameters: create_program()
+    else:
+        params = {k: py_value(v, vt) for k, v in values.items()}
     try:
         with vlib.time_limit(20):
-            prog = pt.create_program(parameters={k: py_value(v, vt) for k, v in values.items()}, **kw)
+            prog = pt.create_program(parameters=params, **kw)
             if prog is not None and keep is not None:
                 try:
                     keep.append(fingerprint(prog))
@@ -1628,8 +1783,8 @@ def run_impl(case):
         values2.update(case['extra'])
         drop = drop_list(case)
         fp1, fp2 = [], []
-        out = _create(pt, values, drop, tsw, fp1)
-        out2 = _create(pt, values2, drop, tsw, fp2)
+        out = _create(pt, values, drop, tsw, fp1, vt=case.get('vt', 'int'))
+        out2 = _create(pt, values2, drop, tsw, fp2, vt=case.get('vt2', case.get('vt', 'int')))
         if 'hang' in (out, out2):
             return {'hang': True}
         # (b): two programs are "the same result" iff they play the same (only meaningful when both exist)
@@ -1699,7 +1854,8 @@ def g_pt(n, nm):
     if k in ('table', 'point', 'func', 'const'):
         return '(Atom %s %s %s %s %s %s)' % (
             {'table': 'KTable', 'point': 'KPoint', 'func': 'KFunction', 'const': 'KConst'}[k],
-            glist(lambda c: nm('ch:' + c), n['ch']), glist(lambda e: g_expr(e, nm), n['reads']), g_expr(n['dur'], nm),
+            glist(lambda c: nm('ch:' + c), n['ch']),
+            glist(lambda e: g_expr(e, nm), list(n['reads']) + ([n['t0']] if n.get('t0') else [])), g_expr(n['dur'], nm),
             g_cs(n['cs'], nm), g_ms(n['ms'], nm))
     if k in ('amc', 'seq'):
         return '(%s %s %s %s)' % ('AMC' if k == 'amc' else 'Seq', glist(lambda q: g_pt(q, nm), n['subs']),
@@ -1791,6 +1947,10 @@ def histogram_keys(case, obs):
     keys.append('nodes:%d' % min(len(ns), 12))
     if any(n.get('oid') is not None for n in ns):
         keys.append('aliased_object')
+    if any(n.get('tup') for n in ns):
+        keys.append('map:given_as_tuple')
+    if case.get('vt') or case.get('vt2'):
+        keys.append('values_as:%s/%s' % (case.get('vt', 'int'), case.get('vt2', case.get('vt', 'int'))))
     if 'out' in obs:
         keys.append('out:' + obs['out'].split(':')[0])
         keys.append('out2:' + obs['out2'].split(':')[0])
@@ -1916,6 +2076,8 @@ def shrink(case, obs, ctx):
     for _ in range(10):
         cands = [dict(cur, tree=v) for v in variants(cur['tree'])]
         cands = sorted(cands, key=lambda c: tree_size(c['tree']))[:80]
+        if cur.get('kind') == 'history' and len(cur['hist']) > 1:
+            cands = [dict(cur, hist=cur['hist'][:j] + cur['hist'][j + 1:]) for j in range(len(cur['hist']))] + cands
         if not cands:
             break
         obss = [run_impl(c) for c in cands]
@@ -1927,8 +2089,9 @@ def shrink(case, obs, ctx):
         bad = [j for j in res[CHECK_SPEC] if classify(keep[j][0], keep[j][1]) is None]
         if not bad:
             break
-        best = min(bad, key=lambda j: tree_size(keep[j][0]['tree']))
-        if tree_size(keep[best][0]['tree']) >= tree_size(cur['tree']):
+        csize = lambda c: tree_size(c['tree']) + 10 * len(c.get('hist', []))
+        best = min(bad, key=lambda j: csize(keep[j][0]))
+        if csize(keep[best][0]) >= csize(cur):
             break
         cur, cur_obs = keep[best]
     return cur, cur_obs
